@@ -606,7 +606,7 @@ fn main() {
     let mut out = String::new();
     for id in 0..args.n {
         let mut cr = r.fork();
-        one_case(&mut cr, id, &mut out, args.tier == "thorough");
+        guard(id, &mut out, |out| one_case(&mut cr, id, out, args.tier == "thorough"));
         if out.len() > 1 << 20 {
             print!("{}", out);
             out.clear();
